@@ -299,9 +299,63 @@ class _N7(ast.NodeTransformer):
         return n
 
 
+class _N8(ast.NodeTransformer):
+    """N8: a `match` over value patterns (constants, dotted names, alternatives of those, a final wildcard) is the if / elif
+    chain testing the subject for membership: `case A | B: S` -> `if x in (A, B): S`.  Other patterns (captures, sequences,
+    classes, guards) are left as they are."""
+
+    def visit_Match(self, node):
+        self.generic_visit(node)
+        subj = node.subject
+        if not isinstance(subj, (ast.Name, ast.Attribute)):
+            return node
+
+        def values(p):
+            if isinstance(p, ast.MatchValue):
+                return [p.value]
+            if isinstance(p, ast.MatchSingleton):
+                return [ast.Constant(value=p.value)]
+            if isinstance(p, ast.MatchOr):
+                out = []
+                for q in p.patterns:
+                    v = values(q)
+                    if v is None:
+                        return None
+                    out += v
+                return out
+            return None
+
+        arms = []
+        for i, c in enumerate(node.cases):
+            if c.guard is not None:
+                return node
+            if isinstance(c.pattern, ast.MatchAs) and c.pattern.pattern is None and c.pattern.name is None and i == len(node.cases) - 1:
+                arms.append((None, c.body))
+                continue
+            v = values(c.pattern)
+            if v is None:
+                return node
+            arms.append((v, c.body))
+        import copy
+
+        chain = None
+        for v, body in reversed(arms):
+            if v is None:
+                chain = list(body)
+                continue
+            if len(v) == 1:
+                test = ast.Compare(left=copy.deepcopy(subj), ops=[ast.Is() if isinstance(v[0], ast.Constant) and v[0].value is None else ast.Eq()],
+                                   comparators=[v[0]])
+            else:
+                test = ast.Compare(left=copy.deepcopy(subj), ops=[ast.In()], comparators=[ast.Tuple(elts=v, ctx=ast.Load())])
+            chain = [ast.copy_location(ast.If(test=test, body=list(body), orelse=chain or []), node)]
+        return chain[0] if chain and len(chain) == 1 and isinstance(chain[0], ast.If) else (chain or node)
+
+
 def normalise(tree):
     if os.environ.get("VERIF_NO_NORMALISE"):
         return tree
+    tree = _N8().visit(tree)
     tree = _N7().visit(tree)
     tree = _materialise_property_factories(tree)
     tree = _N().visit(tree)
